@@ -154,6 +154,9 @@ pub fn run_check(prop_id: &str, tier: Tier, seed: u64, part_out: Option<&Path>, 
                 stats.excluded_known,
                 t0.elapsed().as_secs_f64()
             );
+            for sc in &stats.slow_cases {
+                eprintln!("  slow case: {}", sc);
+            }
             if let Some(f) = &stats.failure {
                 let path = write_replay(prop_id, f);
                 eprintln!("failure in stage {}: {}\n  case: {}", f.stage, f.message, f.rendered);
@@ -209,6 +212,7 @@ pub fn run_check(prop_id: &str, tier: Tier, seed: u64, part_out: Option<&Path>, 
                 "excluded_known": s.excluded_known,
                 "exhaustive": s.exhaustive,
                 "shrink_runs": s.shrink_runs,
+                "slow_cases": s.slow_cases,
             })
         })
         .collect();
